@@ -25,10 +25,10 @@ def ar : K → Nat
 
 def rk : Pc → K → Nat
   | .idle, _ => 0
-  | .bLock, k => 7 + ar k
-  | .bCheck, k => 6 + ar k
-  | .bSessLock, k => 5 + ar k
-  | .bSessRead, k => 4 + ar k
+  | .bSessLock, k => 7 + ar k
+  | .bSessRead, k => 6 + ar k
+  | .bLock, k => 5 + ar k
+  | .bCheck, k => 4 + ar k
   | .bAcquire, k => 3 + ar k
   | .bRelock, k => 2 + ar k
   | .bPost, k => 1 + ar k
